@@ -23,7 +23,8 @@ ASSUMPTIONS = [
     "empty reads with data remaining, premature EOF and partial lines",
     "slice matching is greedy earliest-occurrence (sound for 'non-overlapping slices in stream order')",
 ]
-GATES = ["frames_checked", "delivered_after_fault", "plans_enumerated", "directed_double_faults", "directed_consecutive_shorts", "socket_runs",
+GATES = ["frames_checked", "delivered_after_fault", "plans_enumerated", "directed_double_faults", "directed_consecutive_shorts", "directed_socket_segment_before_stray",
+         "directed_fault_inside_frame_before_glued_twin", "socket_runs",
          "socket_delivered_with_faults"]
 GATES_ZERO = ["budget_exceeded"]
 
@@ -81,11 +82,34 @@ def make_stream(rng, small=False, marks=None):
             v = refcrc.frame(streams.rand_unknown_payload(rng, rng.randint(8, 40)))
             kstray = rng.randint(1, 5)
             stray = bytes(rng.choice(streams.INERT) for _ in range(kstray))
+            if rng.random() < 0.5:  # line-terminator bytes (what keep-alive stripping would remove)
+                stray = rng.choice((b"\r\n", b"\n", b"\r", b"\r\n\r\n", b"\n\n"))
+                kstray = len(stray)
             if marks is not None:
                 marks.append(("stray", sum(len(x) for x in parts), (len(v) - 6, kstray)))
             parts.append(v[:-3] + stray + v[-3:])
             foreign = True
             continue
+        if 0.37 <= kk < 0.40:
+            # F1 (valid, inert bytes only) followed by X whose trailer is the CRC of (an abandoned PREFIX of F1 + X):
+            # X alone is damaged; a reader that keeps bytes of a frame it gave up (after a failed read inside F1) in
+            # front of the next candidate would find the glued block valid
+            for _try in range(30):
+                f1 = refcrc.frame(bytes([0x3F, 0xF0]) + bytes(rng.choice(streams.INERT) for _ in range(rng.randint(6, 24))))
+                if not any(b in (0xD3, 0xB5, 0x24, 0x0A, 0x0D) for b in f1[1:]):
+                    break
+            variant = rng.choice(("header", "header+payload"))
+            stale = f1[:3] if variant == "header" else f1[:-3]
+            xb = b"\xd3" + rng.randint(4, 30).to_bytes(2, "big")
+            xb += streams.rand_unknown_payload(rng, int.from_bytes(xb[1:], "big"))
+            x_ = xb + refcrc.crc_ref2(stale + xb).to_bytes(3, "big")
+            if refcrc.wellformed(x_) is not None:  # (X on its own must NOT be a valid frame)
+                if marks is not None:
+                    marks.append(("stale", sum(len(x) for x in parts), (len(f1) - 6, variant)))
+                parts.append(f1 + x_)
+                valid.append(f1)
+                foreign = True
+                continue
         if kk < 0.34:  # length field lies about the enclosed size; trailer valid for the bytes present
             fr, a, d = streams.length_lie(rng)
             if marks is not None:
@@ -94,7 +118,7 @@ def make_stream(rng, small=False, marks=None):
             foreign = True
             continue
         if k < 0.38:
-            kind = rng.choice(("defined", "unknown", "len0", "len1", "len2", "defined",
+            kind = rng.choice(("defined", "unknown", "len0", "len1", "len2", "defined", "steered",
                                "unknown") + (() if small else ("len255", "len256", "defmax")))
             fr, _, _ = streams.rand_frame(rng, kind)
             parts.append(fr)
@@ -319,7 +343,8 @@ def run(ctx):
         data, foreign = make_stream(rng, small=True, marks=marks)
         lies = [m for m in marks if m[0] == "length-lie" and m[2][1] > m[2][0]]
         strays = [m for m in marks if m[0] == "stray"]
-        if not lies and not strays:
+        stales = [m for m in marks if m[0] == "stale"]
+        if not lies and not strays and not stales:
             continue
         probe = doubles.RecordingStream(data, budget=3 * len(data) + 16)
         try:
@@ -329,6 +354,16 @@ def run(ctx):
                 pass
         except BaseException:
             pass
+        for kind, start, (n1, variant) in stales:
+            # a read INSIDE F1 fails (short payload read / nothing for the trailer): F1 is given up; X follows
+            qs = [q for q, what, off, req, got, f in probe.log if what == "read" and off == start + 3 and req == n1]
+            for q in qs[:1]:
+                for mode in (0, 2):
+                    if variant == "header":
+                        run_case(ctx, data, {q: ["short", rng.randint(1, n1 - 1)]}, mode, 0, True, "directed")
+                    else:
+                        run_case(ctx, data, {q + 1: "empty"}, mode, 0, True, "directed")
+                ctx.hit("directed_fault_inside_frame_before_glued_twin")
         for kind, start, (n_, ks) in strays:
             # the payload read answered by consecutive SHORT reads (2 and 3 in a row), the second of them exactly as
             # long as the stray run: a retry loop that miscounts what is still missing swallows the stray bytes
@@ -340,6 +375,11 @@ def run(ctx):
                 run_case(ctx, data, {q: ["short", j], q + 1: ["short", ks], q + 2: ["short", 1]}, mode, 0, True, "directed")
                 run_case(ctx, data, {q: ["short", j], q + 1: ["short", rng.randint(1, 5)]}, mode, 0, True, "directed")
                 ctx.hit("directed_consecutive_shorts")
+            # the same block over a socket: one TCP segment ends exactly behind the payload, the next one starts with
+            # the stray bytes (the wrapper's buffer is empty at that moment)
+            socket_case(ctx, data, [start + 3 + n_], 4096, rng.choice((0, 1, 2)))
+            socket_case(ctx, data, [start + 3 + n_, ks], rng.choice((64, 4096)), rng.choice((0, 1, 2)))
+            ctx.hit("directed_socket_segment_before_stray")
         for kind, start, (a, d) in lies:
             seqs = [q for q, what, off, req, got, f in probe.log if what == "read" and off == start + 3 and req == d]
             for q in seqs[:1]:
